@@ -33,6 +33,15 @@ CLAIMS = {
          "Bounds as coded in harness/.../core/metadata/zz_verif_c06.go; strings are concrete-length symbolic byte vectors; "
          "intrinsic models for bytealg/strings.Builder/fmt as listed in the evidence; how TypeMeta is derived from Go types is outside.",
          "DESIGN.md 4 (C06)"),
+ "C11": ("Dialect agreement, decided on shared symbolic inputs inside one path: (kernel) for every validation string of up to 2 rules from the converters' vocabulary (or a junk rule) with symbolic values of up to 2 bytes, on 6 field types, "
+         "BuildSchemaValidation (3.0) and BuildSchemaValidationV31 yield the same format, pattern, numeric bounds with exclusivity, length and item bounds, uniqueItems and enum value lists after dialect translation; "
+         "(documents) the C01 and C04 harnesses run both emitters on the same symbolic flat IR and assert the same operations, operationIds, tags, deprecated flags and security for both.",
+         "Bounds as coded in harness/.../generator/swagen/zz_verif_c11.go, zz_verif_c01.go, zz_verif_c04.go. strconv.ParseFloat is interpreted from source (symbolic digits are enumerated). Parameters/bodies/responses and component schemas are compared only as far as C06/C07 harnesses exist.",
+         "DESIGN.md 4 (C11)"),
+ "C14": ("Crash freedom, decided by reachability of a panic on every path of the bound: both schema validation converters on every validation string of one rule (vocabulary or junk) with a symbolic value of up to 2 bytes on 6 field types incl. a $ref type; "
+         "in addition every other harness of this suite treats a reachable panic in the code under test as a violation (FindConflicts, symbol graph operations, annotation parsing, validators, both emitters).",
+         "Bounds as coded in harness/.../generator/swagen/zz_verif_c11.go (vh_C14_*). Outside: go/packages loading, visitors, Handlebars, json5, cobra; wall-clock bounds of the real CLI; loops are bounded by the engine's instruction budget (exhaustion is reported as inconclusive, never as success).",
+         "DESIGN.md 4 (C14)"),
  "C15": ("For every list of up to 3 routes (2 verbs, up to 2 segments each drawn from two literals and two parameters, with or without doubled/leading/trailing slashes at N=2) "
          "the real FindConflicts is sound (every conflict names two distinct same-verb entries that overlap by an independent index-loop reference), complete (every overlapping entry is named), "
          "sorted, and independent of list permutation and of map iteration order; all paths of the bound explored, solver-decided.",
